@@ -460,5 +460,318 @@ theorem doctype_closed_form (t : Tokenizer) (kw r : Bytes) (ok : Ok t) (he : t.e
   obtain ⟨p, d1, d2⟩ := this
   exact ⟨⟨p.token, p.rawS, p.rawE, p.err, p.rawTag.trans htag, p.cdata, p.buf⟩, d1, d2⟩
 
+/-! ### raw text (`<title>`, `<textarea>`, `<style>`, `<script>`, …) -/
+
+/-- the raw-text contents covered by the closed form: no `<` at all (so the script automaton stays in its data state) -/
+def rawContentOK (c : Bytes) : Bool := c.all (· != 60)
+
+theorem rawEndTagLoop_run : ∀ (nm : Bytes) (t : Tokenizer), Has t t.rawE nm → t.err = false →
+    (rawEndTagLoop t (nm.map lowerByte)).2 = true ∧ Stops t (rawEndTagLoop t (nm.map lowerByte)).1 nm.length
+  | [], t, _, he => by simp [rawEndTagLoop, Stops, he]
+  | b :: nm, t, h, he => by
+    obtain ⟨e1, e2, e3, e4⟩ := read_known h.head he
+    have ih := rawEndTagLoop_run nm t.readByte.1 ((h.tail.congr e4).at (by rw [e2])) e3
+    have hres : rawEndTagLoop t (List.map lowerByte (b :: nm)) = rawEndTagLoop t.readByte.1 (nm.map lowerByte) := by
+      rw [List.map_cons, rawEndTagLoop]
+      simp only
+      rw [if_neg (by rw [e3]; exact Bool.false_ne_true), e1]
+      by_cases hu : isUpper b = true
+      · have hl : lowerByte b = b + 32 := by simp [lowerByte, hu]
+        rw [hl, if_pos (by simp), if_neg (by omega), if_neg (by simp)]
+      · have hl : lowerByte b = b := by simp [lowerByte, hu]
+        rw [hl, if_neg (by simp)]
+    rw [hres]
+    exact ⟨ih.1, by rw [ih.2.1, e2]; simp; omega, ih.2.2⟩
+
+theorem readRawEndTag_run (nm : Bytes) (d : Nat) (t : Tokenizer) (htag : t.rawTag = nm.map lowerByte)
+    (h : Has t t.rawE (nm ++ [d])) (hd : isTagEnd d = true) (he : t.err = false) (h2 : 2 ≤ t.rawE) :
+    (readRawEndTag t).2 = true ∧ (readRawEndTag t).1.rawE = t.rawE - 2 ∧ (readRawEndTag t).1.err = false := by
+  obtain ⟨l2, l1, l1e⟩ := rawEndTagLoop_run nm t h.left he
+  have hb : (rawEndTagLoop t (nm.map lowerByte)).1.buf[(rawEndTagLoop t (nm.map lowerByte)).1.rawE]? = some d := by
+    rw [rawEndTagLoop_buf, l1]; exact h.right.head
+  obtain ⟨e1, e2, e3, e4⟩ := read_known hb l1e
+  unfold readRawEndTag
+  simp only
+  rw [htag, l2]
+  simp only [Bool.not_true, Bool.false_eq_true, if_false]
+  rw [if_neg (by rw [e3]; exact Bool.false_ne_true), e1, if_pos hd]
+  refine ⟨rfl, ?_, by show (unread _ _).err = false; rw [unread_err, e3]⟩
+  show (unread _ _).rawE = _
+  rw [unread_rawE_eq _ (by rw [e2, l1]; simp; omega), e2, l1]; simp; omega
+
+theorem rawTextGo_run (nm : Bytes) (d : Nat) : ∀ (c : Bytes) (t : Tokenizer), Ok t → rawContentOK c = true →
+    t.rawTag = nm.map lowerByte → Has t t.rawE (c ++ ([60, 47] ++ (nm ++ [d]))) → isTagEnd d = true → t.err = false →
+    Stops t (rawTextGo t) c.length
+  | [], t, ok, _, htag, h, hd, he => by
+    obtain ⟨e1, e2, e3, e4⟩ := read_known h.head he
+    have hb1 : t.readByte.1.buf[t.readByte.1.rawE]? = some 47 := by rw [e4, e2]; exact h.tail.head
+    obtain ⟨f1, f2, f3, f4⟩ := read_known hb1 e3
+    have a1 := readByte_adv ok
+    have a2 := readByte_adv a1.ok
+    have r := readRawEndTag_run nm d t.readByte.1.readByte.1 (by rw [(a1.trans a2).rawTag, htag])
+      ((h.tail.tail.congr (f4.trans e4)).at (by rw [f2, e2])) hd f3 (by rw [f2, e2]; omega)
+    rw [rawTextGo]
+    simp only [e3, e1, f3, f1, Bool.false_eq_true, dite_false, bne_self_eq_false, if_false]
+    rw [dif_pos (by rw [r.1]; rfl)]
+    exact ⟨by rw [r.2.1, f2, e2]; simp, r.2.2⟩
+  | b :: c, t, ok, hc, htag, h, hd, he => by
+    obtain ⟨e1, e2, e3, e4⟩ := read_known h.head he
+    simp only [rawContentOK, List.all_cons, Bool.and_eq_true, bne_iff_ne, ne_eq] at hc
+    have a1 := readByte_adv ok
+    have ih := rawTextGo_run nm d c t.readByte.1 a1.ok (by simpa [rawContentOK] using hc.2) (by rw [a1.rawTag, htag])
+      ((h.tail.congr e4).at (by rw [e2])) hd e3
+    rw [rawTextGo]
+    simp only [e3, e1, Bool.false_eq_true, dite_false, show (b != 60) = true by simp [hc.1], if_true]
+    exact ⟨by rw [ih.1, e2]; simp; omega, ih.2⟩
+
+theorem scriptGo_run (nm : Bytes) (d : Nat) : ∀ (c : Bytes) (t : Tokenizer), Ok t → rawContentOK c = true →
+    t.rawTag = nm.map lowerByte → Has t t.rawE (c ++ ([60, 47] ++ (nm ++ [d]))) → isTagEnd d = true → t.err = false →
+    Stops t (scriptGo .data t) c.length
+  | [], t, ok, _, htag, h, hd, he => by
+    obtain ⟨e1, e2, e3, e4⟩ := read_known h.head he
+    have hb1 : t.readByte.1.buf[t.readByte.1.rawE]? = some 47 := by rw [e4, e2]; exact h.tail.head
+    obtain ⟨f1, f2, f3, f4⟩ := read_known hb1 e3
+    have a1 := readByte_adv ok
+    have a2 := readByte_adv a1.ok
+    have r := readRawEndTag_run nm d t.readByte.1.readByte.1 (by rw [(a1.trans a2).rawTag, htag])
+      ((h.tail.tail.congr (f4.trans e4)).at (by rw [f2, e2])) hd f3 (by rw [f2, e2]; omega)
+    rw [scriptGo]
+    simp only [e3, e1, Bool.false_eq_true, dite_false, beq_self_eq_true, if_true]
+    rw [scriptGo]
+    simp only [f3, f1, Bool.false_eq_true, dite_false, beq_self_eq_true, if_true]
+    rw [scriptGo]
+    try simp only []
+    rw [dif_pos (by rw [r.1]; rfl)]
+    exact ⟨by rw [r.2.1, f2, e2]; simp, r.2.2⟩
+  | b :: c, t, ok, hc, htag, h, hd, he => by
+    obtain ⟨e1, e2, e3, e4⟩ := read_known h.head he
+    simp only [rawContentOK, List.all_cons, Bool.and_eq_true, bne_iff_ne, ne_eq] at hc
+    have a1 := readByte_adv ok
+    have ih := scriptGo_run nm d c t.readByte.1 a1.ok (by simpa [rawContentOK] using hc.2) (by rw [a1.rawTag, htag])
+      ((h.tail.congr e4).at (by rw [e2])) hd e3
+    rw [scriptGo]
+    simp only [e3, e1, Bool.false_eq_true, dite_false, show (b == 60) = false by simp [hc.1], if_false]
+    exact ⟨by rw [ih.1, e2]; simp; omega, ih.2⟩
+
+/-- `read_raw_or_cdata` on `content </name d` -/
+theorem readRawOrCdata_run (nm c : Bytes) (d : Nat) (t : Tokenizer) (ok : Ok t) (hc : rawContentOK c = true)
+    (htag : t.rawTag = nm.map lowerByte) (hto : TagOk t.rawTag) (h : Has t t.rawE (c ++ ([60, 47] ++ (nm ++ [d]))))
+    (hd : isTagEnd d = true) (he : t.err = false) :
+    Stops t (readRawOrCdata t) c.length ∧ (readRawOrCdata t).allowCdata = t.allowCdata := by
+  unfold readRawOrCdata
+  split
+  · rename_i hs
+    have hs' : t.rawTag = htmlScript := by simpa using hs
+    have a := scriptGo_adv .data t t (Adv.refl ok) (by simp [SS.need]) hs'
+    have r := scriptGo_run nm d c t ok hc htag h hd he
+    unfold readScript
+    exact ⟨⟨r.1, r.2⟩, a.cdata⟩
+  · have a := rawTextGo_adv t ok hto
+    have r := rawTextGo_run nm d c t ok hc htag h hd he
+    exact ⟨⟨r.1, r.2⟩, a.cdata⟩
+
+theorem lowerByte_ge_of_alnum {b : Nat} (h : isAlnum b = true) : 32 ≤ lowerByte b := by
+  have : 48 ≤ b := by
+    simp only [isAlnum, isAlpha, Bool.or_eq_true, Bool.and_eq_true, decide_eq_true_eq] at h; omega
+  unfold lowerByte; split <;> omega
+
+theorem TagOk_lower_of_nameOK {nm : Bytes} (h : nameOK nm = true) : TagOk (nm.map lowerByte) := by
+  intro c hc
+  obtain ⟨b, hb, rfl⟩ := List.mem_map.1 hc
+  cases nm with
+  | nil => cases hb
+  | cons a nm =>
+    simp only [nameOK, Bool.and_eq_true, List.all_eq_true] at h
+    rcases List.mem_cons.1 hb with rfl | hb
+    · exact lowerByte_ge_of_alnum (isAlpha_alnum h.1)
+    · exact lowerByte_ge_of_alnum (h.2 b hb)
+
+/-- the state in which `next` runs its raw-text branch -/
+private theorem next_raw_unfold (t : Tokenizer) (he : t.err = false) (hne : t.rawTag ≠ []) (hpl : t.rawTag ≠ htmlPlaintext) :
+    next t =
+      (let t1 := readRawOrCdata { t with rawS := t.rawE, dataS := t.rawE, dataE := t.rawE }
+       if t1.dataE > t1.dataS then { t1 with token := .text, convertNull := true }
+       else mainLoop { t1 with textIsRaw := false, convertNull := false }) := by
+  have hne' : (t.rawTag != []) = true := by simpa using hne
+  have hpl' : (t.rawTag == htmlPlaintext) = false := by simpa using hpl
+  unfold next nextGo
+  simp only [he, hne', hpl', Bool.false_eq_true, if_false, if_true]
+
+/-- **closed form of `next` on raw text**: in the raw-text context `t.rawTag` (set by the start tag of `<title>`,
+`<textarea>`, `<style>`, `<script>`, … — not `<plaintext>`), a non-empty `content` without `<` followed by the matching
+end tag `</name` + delimiter is ONE text token, and the context is left -/
+theorem rawtext_closed_form (t : Tokenizer) (nm c : Bytes) (d : Nat) (ok : Ok t) (he : t.err = false)
+    (htag : t.rawTag = nm.map lowerByte) (hne : t.rawTag ≠ []) (hpl : t.rawTag ≠ htmlPlaintext) (hto : TagOk t.rawTag)
+    (hc : rawContentOK c = true) (hcne : c ≠ []) (hd : isTagEnd d = true)
+    (h : Has t t.rawE (c ++ [60, 47] ++ nm ++ [d])) :
+    Piece t (next t) .text c.length [] ∧ (next t).dataS = t.rawE ∧ (next t).dataE = t.rawE + c.length := by
+  rw [next_raw_unfold t he hne hpl]
+  have h' : Has t t.rawE (c ++ ([60, 47] ++ (nm ++ [d]))) := by simpa [List.append_assoc] using h
+  let T0 : Tokenizer := { t with rawS := t.rawE, dataS := t.rawE, dataE := t.rawE }
+  have ok0 : Ok T0 := ⟨ok.le, ok.panic, ok.hang, ok.utf8⟩
+  obtain ⟨a0, s1, s2, s3⟩ := readRawOrCdata_spec T0 ok0 hto
+  obtain ⟨⟨r1, r2⟩, r3⟩ := readRawOrCdata_run nm c d T0 ok0 hc htag hto (h'.congr rfl) hd he
+  have hlen : 0 < c.length := List.length_pos_iff.mpr hcne
+  show Piece t (if (readRawOrCdata T0).dataE > (readRawOrCdata T0).dataS then _ else _) _ _ _ ∧ _
+  rw [if_pos (by rw [s3, s2, r1]; show t.rawE + c.length > t.rawE; omega)]
+  exact ⟨⟨rfl, a0.rawS, r1, r2, s1, r3, a0.buf⟩, s2, by show (readRawOrCdata T0).dataE = _; rw [s3, r1]⟩
+
+/-- **closed form of `next` on an empty raw-text element body**: in the raw-text context, the matching end tag
+`</name>` right away is returned as the end tag (no empty text token) -/
+theorem rawtext_empty_closed_form (t : Tokenizer) (nm : Bytes) (ok : Ok t) (he : t.err = false)
+    (htag : t.rawTag = nm.map lowerByte) (hne : t.rawTag ≠ []) (hpl : t.rawTag ≠ htmlPlaintext)
+    (hn : nameOK nm = true) (h : Has t t.rawE ([60, 47] ++ nm ++ [62])) :
+    Piece t (next t) .endTag ([60, 47] ++ nm ++ [62]).length [] ∧
+    (next t).dataS = t.rawE + 2 ∧ (next t).dataE = t.rawE + 2 + nm.length := by
+  rw [next_raw_unfold t he hne hpl]
+  have hto : TagOk t.rawTag := htag ▸ TagOk_lower_of_nameOK hn
+  have h' : Has t t.rawE ([] ++ ([60, 47] ++ (nm ++ [62]))) := by simpa [List.append_assoc] using h
+  let T0 : Tokenizer := { t with rawS := t.rawE, dataS := t.rawE, dataE := t.rawE }
+  have ok0 : Ok T0 := ⟨ok.le, ok.panic, ok.hang, ok.utf8⟩
+  obtain ⟨a0, s1, s2, s3⟩ := readRawOrCdata_spec T0 ok0 hto
+  obtain ⟨⟨r1, r2⟩, r3⟩ := readRawOrCdata_run nm [] 62 T0 ok0 rfl htag hto (h'.congr rfl) (by decide) he
+  show Piece t (if (readRawOrCdata T0).dataE > (readRawOrCdata T0).dataS then _ else _) _ _ _ ∧ _
+  rw [if_neg (by rw [s3, s2, r1]; show ¬ t.rawE + 0 > t.rawE; omega)]
+  generalize readRawOrCdata T0 = t1 at *
+  have hre : t1.rawE = t.rawE := by rw [r1]; rfl
+  have := mainLoop_end_tag { t1 with textIsRaw := false, convertNull := false } nm
+    ⟨a0.ok.le, a0.ok.panic, a0.ok.hang, a0.ok.utf8⟩ r2 (by show t1.rawS = t1.rawE; rw [a0.rawS, hre])
+    hn ((h.congr (show t1.buf = t.buf from a0.buf)).at (show t1.rawE = t.rawE from hre))
+  obtain ⟨p, d1, d2⟩ := this
+  refine ⟨⟨p.token, p.rawS.trans a0.rawS, by rw [p.rawE]; show t1.rawE + _ = _; rw [hre], p.err, p.rawTag.trans s1,
+    p.cdata.trans r3, p.buf.trans a0.buf⟩, ?_, ?_⟩
+  · rw [d1]; show t1.rawE + 2 = _; rw [hre]
+  · rw [d2]; show t1.rawE + 2 + _ = _; rw [hre]
+
+/-! ### text -/
+
+/-- the text runs covered by the closed form: no `<` -/
+def textOK (tx : Bytes) : Bool := tx.all (· != 60)
+
+/-- the main loop skips text bytes up to `<` + opener -/
+theorem mainLoop_skip : ∀ (tx : Bytes) (T : Tokenizer) (c : Nat), Ok T → T.err = false → textOK tx = true →
+    Has T T.rawE (tx ++ [60, c]) → isOpener c = true →
+    ∃ S, mainLoop T = dispatchTag S c ∧ S.rawE = T.rawE + tx.length + 2 ∧ S.rawS = T.rawS ∧ S.err = false ∧
+      S.buf = T.buf ∧ S.rawTag = T.rawTag ∧ S.allowCdata = T.allowCdata ∧ Ok S ∧ S.dataS = T.dataS
+  | [], T, c, ok, he, _, h, hop => by
+    obtain ⟨hml, o⟩ := mainLoop_dispatch T c ok he h hop
+    exact ⟨opened2 T, hml, by rw [o.rawE]; simp, o.rawS, o.err, o.buf, o.rawTag, o.cdata, o.ok, o.dataS⟩
+  | b :: tx, T, c, ok, he, htx, h, hop => by
+    obtain ⟨e1, e2, e3, e4⟩ := read_known h.head he
+    simp only [textOK, List.all_cons, Bool.and_eq_true, bne_iff_ne, ne_eq] at htx
+    have a1 := readByte_adv ok
+    obtain ⟨S, i1, i2, i3, i4, i5, i6, i7, i8, i9⟩ := mainLoop_skip tx T.readByte.1 c a1.ok e3
+      (by simpa [textOK] using htx.2) ((h.tail.congr e4).at (by rw [e2])) hop
+    refine ⟨S, ?_, by rw [i2, e2]; simp; omega, i3.trans a1.rawS, i4, i5.trans e4, i6.trans a1.rawTag,
+      i7.trans a1.cdata, i8, by rw [i9]; simp⟩
+    rw [mainLoop]
+    simp only [e3, e1, Bool.false_eq_true, dite_false, show (b != 60) = true by simp [htx.1], if_true]
+    exact i1
+
+/-- **closed form of `next` on a text run**: non-empty text without `<`, followed by `<` and a tag-opening byte
+(a letter, `/`, `!` or `?`), is ONE text token -/
+theorem text_closed_form (t : Tokenizer) (tx : Bytes) (c : Nat) (ok : Ok t) (he : t.err = false) (htag : t.rawTag = [])
+    (htx : textOK tx = true) (hne : tx ≠ []) (hop : isOpener c = true) (h : Has t t.rawE (tx ++ [60, c])) :
+    Piece t (next t) .text tx.length [] ∧ (next t).dataS = t.rawE ∧ (next t).dataE = t.rawE + tx.length := by
+  rw [next_mainLoop t he htag]
+  obtain ⟨S, i1, i2, i3, i4, i5, i6, i7, i8, i9⟩ := mainLoop_skip tx
+    { ({ t with rawS := t.rawE, dataS := t.rawE, dataE := t.rawE } : Tokenizer) with textIsRaw := false, convertNull := false }
+    c ⟨ok.le, ok.panic, ok.hang, ok.utf8⟩ he htx (h.congr rfl) hop
+  have hlen : 0 < tx.length := List.length_pos_iff.mpr hne
+  rw [i1]
+  unfold dispatchTag
+  simp only [htmlTagOpenLen]
+  have i2' : S.rawE = t.rawE + tx.length + 2 := i2
+  have i3' : S.rawS = t.rawE := i3
+  rw [if_neg (by rw [i2']; omega), if_pos (by rw [i2', i3']; omega)]
+  exact ⟨⟨rfl, i3', by show S.rawE - 2 = _; rw [i2']; omega, i4, i6.trans htag, i7, i5⟩, i9,
+    by show S.rawE - 2 = _; rw [i2']; omega⟩
+
+/-- the main loop runs into the end of the buffer -/
+theorem mainLoop_eof : ∀ (tx : Bytes) (T : Tokenizer), T.err = false → textOK tx = true →
+    Has T T.rawE tx → T.buf.size = T.rawE + tx.length →
+    ∃ S, mainLoop T = finishText S ∧ S.rawE = T.rawE + tx.length ∧ S.rawS = T.rawS ∧ S.err = true ∧
+      S.buf = T.buf ∧ S.rawTag = T.rawTag ∧ S.allowCdata = T.allowCdata ∧ S.dataS = T.dataS
+  | [], T, he, _, _, hsz => by
+    refine ⟨{ T with err := true }, ?_, rfl, rfl, rfl, rfl, rfl, rfl, rfl⟩
+    have hr : T.readByte = ({ T with err := true }, 0) := by
+      unfold readByte; rw [dif_neg (by simp at hsz; omega)]
+    rw [mainLoop]
+    simp only [hr, dite_true]
+  | b :: tx, T, he, htx, h, hsz => by
+    obtain ⟨e1, e2, e3, e4⟩ := read_known h.head he
+    simp only [textOK, List.all_cons, Bool.and_eq_true, bne_iff_ne, ne_eq] at htx
+    obtain ⟨S, i1, i2, i3, i4, i5, i6, i7, i8⟩ := mainLoop_eof tx T.readByte.1 e3
+      (by simpa [textOK] using htx.2) ((h.tail.congr e4).at (by rw [e2])) (by rw [e4, e2, hsz]; simp; omega)
+    refine ⟨S, ?_, by rw [i2, e2]; simp; omega, by rw [i3]; unfold readByte; split <;> rfl, i4, i5.trans e4,
+      by rw [i6]; unfold readByte; split <;> rfl, by rw [i7]; unfold readByte; split <;> rfl, by rw [i8]; simp⟩
+    rw [mainLoop]
+    simp only [e3, e1, Bool.false_eq_true, dite_false, show (b != 60) = true by simp [htx.1], if_true]
+    exact i1
+
+/-- **closed form of `next` on a text run at the end of the input**: ONE text token, with the error flag set
+(the following `next` returns the `ErrorToken`, see `next_of_err`) -/
+theorem text_eof_closed_form (t : Tokenizer) (tx : Bytes) (he : t.err = false) (htag : t.rawTag = [])
+    (htx : textOK tx = true) (hne : tx ≠ []) (h : Has t t.rawE tx) (hsz : t.buf.size = t.rawE + tx.length) :
+    (next t).token = .text ∧ (next t).rawS = t.rawE ∧ (next t).rawE = t.rawE + tx.length ∧ (next t).err = true ∧
+    (next t).rawTag = [] ∧ (next t).allowCdata = t.allowCdata ∧ (next t).buf = t.buf ∧
+    (next t).dataS = t.rawE ∧ (next t).dataE = t.rawE + tx.length := by
+  rw [next_mainLoop t he htag]
+  obtain ⟨S, i1, i2, i3, i4, i5, i6, i7, i8⟩ := mainLoop_eof tx
+    { ({ t with rawS := t.rawE, dataS := t.rawE, dataE := t.rawE } : Tokenizer) with textIsRaw := false, convertNull := false }
+    he htx (h.congr rfl) hsz
+  have hlen : 0 < tx.length := List.length_pos_iff.mpr hne
+  have i2' : S.rawE = t.rawE + tx.length := i2
+  have i3' : S.rawS = t.rawE := i3
+  rw [i1]
+  unfold finishText
+  rw [if_pos (by rw [i2', i3']; omega)]
+  exact ⟨rfl, i3', i2', i4, i6.trans htag, i7, i5, i8, i2'⟩
+
+/-- **closed form of `next` at the end of the input** (nothing pending): the `ErrorToken`, empty raw span -/
+theorem eof_closed_form (t : Tokenizer) (he : t.err = false) (htag : t.rawTag = []) (hsz : t.buf.size = t.rawE) :
+    (next t).token = .error ∧ (next t).rawS = t.rawE ∧ (next t).rawE = t.rawE ∧ (next t).err = true ∧
+    (next t).buf = t.buf := by
+  rw [next_mainLoop t he htag]
+  obtain ⟨S, i1, i2, i3, i4, i5, i6, i7, i8⟩ := mainLoop_eof []
+    { ({ t with rawS := t.rawE, dataS := t.rawE, dataE := t.rawE } : Tokenizer) with textIsRaw := false, convertNull := false }
+    he rfl (Has.nil _ _) (by simpa using hsz)
+  have i2' : S.rawE = t.rawE := i2
+  have i3' : S.rawS = t.rawE := i3
+  rw [i1]
+  unfold finishText
+  rw [if_neg (by rw [i2', i3']; omega)]
+  exact ⟨rfl, i3', i2', i4, i5⟩
+
+/-- once the error flag is set, `next` returns the `ErrorToken` with an empty raw span, for ever -/
+theorem next_of_err (t : Tokenizer) (he : t.err = true) :
+    (next t).token = .error ∧ (next t).rawS = t.rawE ∧ (next t).rawE = t.rawE ∧ (next t).err = true ∧
+    (next t).buf = t.buf := by
+  unfold next nextGo
+  simp only
+  rw [if_pos (by exact he)]
+  exact ⟨rfl, rfl, rfl, he, rfl⟩
+
+/-! ### chaining helpers -/
+
+/-- the fresh tokenizer sees the whole input at position 0 -/
+theorem has_new (l : Bytes) : Has (Tokenizer.new l.toArray) 0 l := by
+  intro i hi
+  show l.toArray[0 + i]? = some l[i]
+  simp [hi]
+
+theorem new_facts (l : Bytes) : (Tokenizer.new l.toArray).rawE = 0 ∧ (Tokenizer.new l.toArray).err = false ∧
+    (Tokenizer.new l.toArray).rawTag = [] ∧ (Tokenizer.new l.toArray).buf = l.toArray :=
+  ⟨rfl, rfl, rfl, rfl⟩
+
+/-- a known stretch of the buffer stays known after a step -/
+theorem Piece.has {t t1 : Tokenizer} {k : TokenType} {len : Nat} {tag : List Nat} (pc : Piece t t1 k len tag)
+    {p : Nat} {l : Bytes} (h : Has t p l) : Has t1 p l := h.congr pc.buf
+
+/-- the rest of the input after a piece, at the new position -/
+theorem Piece.rest {t t1 : Tokenizer} {k : TokenType} {len : Nat} {tag : List Nat} (pc : Piece t t1 k len tag)
+    {x rest : Bytes} (hx : x.length = len) (h : Has t t.rawE (x ++ rest)) : Has t1 t1.rawE rest :=
+  (h.right.congr pc.buf).at (by rw [pc.rawE, hx])
+
 end Tokenizer
 end Rio.Html
